@@ -239,6 +239,8 @@ class Sim:
                      particle_delta=int(ctx.particle_delta), N=int(ctx.number_of_exchange_particles))
         s["ctx"] = c
         s["geom"] = h(atoms.positions.tobytes() + atoms.cell.array.tobytes() + atoms.numbers.tobytes())
+        # ASE's change detection (compare_atoms) ignores differences below 1e-15: a coarser identity of the configuration
+        s["geom12"] = h((np.round(atoms.positions, 12) + 0.0).tobytes() + (np.round(atoms.cell.array, 12) + 0.0).tobytes() + atoms.numbers.tobytes())
         s["leaves"] = [{"labels": [int(x) for x in m.labels] if hasattr(m, "labels") else None,
                         "to_displace": None if getattr(m, "to_displace_labels", None) is None else int(m.to_displace_labels),
                         "to_add": getattr(m, "to_add_atoms", None) is not None,
